@@ -7,6 +7,9 @@ probing runs inside the stub's `serve_forever`) against `Mw.mkAcl / aclProcess /
 model.  Text parsing stays in Python: the harness parses entries and peers with `ipaddress` the way
 `AccessControl` does and hands (family, integer, prefix length) to the model.
 
+Family `layered` writes [certificate_auth] path rules and a [rate_limit] table next to the policy and
+lets peers present whitelisted / unlisted / no certificates (direct oracle only: the address decides).
+
 Direct oracle (independent of the Lean model): the admission rule of the property text evaluated
 with `ipaddress` parsing and integer interval arithmetic.
 """
@@ -569,7 +572,7 @@ class Layered(_AclFamily):
     own.  A peer the policy admits never receives 53."""
 
     name = "layered"
-    quick_n = 1600
+    quick_n = 1000
     thorough_n = 30000
 
     FIXED = [
